@@ -59,6 +59,21 @@ def dot_stuff(data: bytes) -> bytes:
 
 ########################################################################
 #
+def end_multiline(data: bytes) -> bytes:
+    """
+    Terminate the (dot-stuffed) data of a multi-line response.
+
+    The last line of the data is given its CRLF if it does not have one
+    yet, then the termination line '.' follows. Nothing else is added, so
+    the client receives exactly the octets of `data`.
+    """
+    if data and not data.endswith(b"\r\n"):
+        data += b"\r\n"
+    return data + b".\r\n"
+
+
+########################################################################
+#
 class POP3ClientProxy:
     """
     Proxy for a POP3 client connection in the user subprocess.
@@ -426,8 +441,7 @@ class POP3CommandHandler:
         msg_bytes = dot_stuff(msg_bytes)
         await self.client.push(
             f"+OK {size} octets\r\n".encode("latin-1")
-            + msg_bytes
-            + b"\r\n.\r\n"
+            + end_multiline(msg_bytes)
         )
         return True
 
@@ -541,7 +555,7 @@ class POP3CommandHandler:
         truncated_body = b"\r\n".join(body_lines[:num_lines])
         result = headers + b"\r\n" + truncated_body
         result = dot_stuff(result)
-        await self.client.push(b"+OK\r\n" + result + b"\r\n.\r\n")
+        await self.client.push(b"+OK\r\n" + end_multiline(result))
         return True
 
     ##################################################################
